@@ -69,19 +69,19 @@ contract TargetsDiscovery.ActiveTargetsByHash
 // (the label pipeline itself - populateLabels, relabeling, URL construction - is Prometheus library code: abstracted)
 decl thash(int, int) : int
 // (assumed) the final label set is a freshly built slice (labels.Builder.Labels)
-contract populateLabels
+contract trusted populateLabels
   ensures result0 == nil || fresh(result0)
   modifies nothing
 
 // the digest: a function of the (sorted) final label set and the URL text; sorting rearranges lbls in place
-contract targetHash
+contract trusted targetHash
   ensures result == thash(baseof(lbls), url)
   modifies elemsof(lbls)
 
-contract labelsWithoutConfigParam
+contract trusted labelsWithoutConfigParam
   ensures fresh(result)
   modifies nothing
-contract supportInvalidLabelName
+contract trusted supportInvalidLabelName
   ensures fresh(result)
   modifies nothing
 
